@@ -13,7 +13,7 @@ from common import Str, rng_for, sx
 from props import c12 as G
 
 ID = 'C18'
-LEAN_MODULES = ['Cellml.Props.C18', 'Cellml.Tie.SingTrav']
+LEAN_MODULES = ['Cellml.Props.C18', 'Cellml.Tie.SingTrav', 'Cellml.Props.C18Gen']
 N = {'quick': 150, 'thorough': 3000}
 RULE = ('a case is a history: a base model (40 % a generated CellML document with unit-changing connections, loaded with '
         'load_model; 30 % a model built through the API holding 2-4 GHK-like equations from the C12 generator; 15 % a '
